@@ -181,4 +181,7 @@ pub fn draw_knobs(rng: &mut Rng, spec: &mut Spec) {
     }
     spec.quiet |= rng.chance(1, 2);
     spec.long_opts |= rng.chance(1, 8);
+    // the iteration trace prints the values of constants and instructions
+    // (whatever their Debug form shows) on stdout
+    spec.debug_iters |= rng.chance(1, 10);
 }
